@@ -82,6 +82,17 @@ def all_corruptions(base: dict, g):
                 cases.append((f"negative:{sec}.{key}", ("set", sec, key, -abs(val) - 1.0)))
             if isinstance(val, list):
                 cases.append((f"scalar-for-list:{sec}.{key}", ("set", sec, key, 3.0)))
+            cases.append((f"null:{sec}.{key}", ("set", sec, key, None)))
+    # optional keys (absent from the base inputs): null, wrong type and an acceptable value each
+    for sec, key, good in (("design", "max_boreholes", 60), ("design", "continue_if_design_unmet", False), ("simulation", "timestep", "HYBRID"),
+                           ("geometric_constraints", "perimeter_spacing_ratio", 0.8)):
+        if key in base[sec]:
+            continue
+        if key == "perimeter_spacing_ratio" and str(base[sec].get("method", "")).upper() != "ROWWISE":
+            continue
+        cases.append((f"null-optional:{sec}.{key}", ("set", sec, key, None)))
+        cases.append((f"wrongtype-optional:{sec}.{key}", ("set", sec, key, {"a": 1})))
+        cases.append((f"valid-optional:{sec}.{key}", ("set", sec, key, good)))
     cases.append(("range:fluid.concentration_percent", ("set", "fluid", "concentration_percent", 75.0)))
     cases.append(("enum:fluid.fluid_name", ("set", "fluid", "fluid_name", "MERCURY")))
     cases.append(("enum:pipe.arrangement", ("set", "pipe", "arrangement", "TRIPLEUTUBE")))
